@@ -93,6 +93,12 @@ pub struct State {
     last_progress: Instant,
     /// called at every decision while every thread is parked
     on_decision: Option<Box<dyn Fn() -> Option<String> + Send>>,
+    /// a thread that was finishing found nobody enabled: the decision is taken by the
+    /// harness thread in `wait_done` once the finished thread has really gone (a join
+    /// on it can only complete after it has left this code)
+    deferred: bool,
+    /// kernel thread id of the background thread whose exit the deferred decision waits for
+    exiting: i32,
 }
 
 pub struct Sched {
@@ -126,6 +132,8 @@ impl Sched {
                 monitor: Vec::new(),
                 last_progress: Instant::now(),
                 on_decision: None,
+            deferred: false,
+            exiting: 0,
             }),
             cv: Condvar::new(),
             stop_polling: AtomicBool::new(false),
@@ -367,6 +375,14 @@ impl Sched {
     }
 
     pub fn finish_thread(&self) {
+        self.finish(false)
+    }
+
+    /// `background`: the thread is one of the store's own (worker, coordinator, sweeper). The
+    /// store may join it, and a join completes only after the thread has left the process:
+    /// the next decision is taken by the harness thread (`wait_done`) once the kernel thread
+    /// is gone, so that "the join can proceed" is a deterministic function of the history.
+    fn finish(&self, background: bool) {
         let Some(tid) = Self::my_tid() else { return };
         let mut st = self.m.lock();
         st.threads[tid].status = Status::Finished;
@@ -374,7 +390,16 @@ impl Sched {
         st.pins.retain(|p| p.0 != tid);
         let had_token = st.token == Some(tid);
         if st.controlled && had_token {
-            self.schedule_next(&mut st);
+            let all_app_done = st.threads.iter().filter(|t| t.app).all(|t| t.status == Status::Finished);
+            if background && !all_app_done {
+                st.token = None;
+                st.last_progress = Instant::now();
+                st.deferred = true;
+                st.exiting = st.threads[tid].os_tid;
+                self.cv.notify_all();
+            } else {
+                self.schedule_next(&mut st);
+            }
         } else {
             self.cv.notify_all();
         }
@@ -413,6 +438,16 @@ impl Sched {
         loop {
             if let Some(o) = st.outcome.clone() {
                 return o;
+            }
+            if st.deferred && st.token.is_none() {
+                let gone = st.exiting <= 0 || !std::path::Path::new(&format!("/proc/self/task/{}", st.exiting)).exists();
+                if gone || st.last_progress.elapsed() > Duration::from_secs(10) {
+                    st.deferred = false;
+                    self.schedule_next(&mut st);
+                } else {
+                    self.cv.wait_for(&mut st, Duration::from_micros(200));
+                }
+                continue;
             }
             if st.last_progress.elapsed() > stall {
                 // A token holder that is runnable but not getting the CPU (a loaded machine) is
@@ -490,7 +525,7 @@ impl SchedHooks for Sched {
     }
 
     fn retired(&self, _role: &'static str) {
-        self.finish_thread();
+        self.finish(true);
     }
 
     fn tick(&self, shutdown: &dyn Fn() -> bool) -> Tick {
